@@ -80,7 +80,8 @@ RootViol(t, logs) ==
             \cup (IF /\ Len(t.out) = Len(items)
                      /\ \A q \in 1..Len(items) :
                           /\ t.out[q].v = items[q].v
-                          /\ Cause(B0, t.out[q].o) = Cause(B0, items[q].o)
+                          /\ (Len(t.pipe) = 0     \* (no operator: the item *is* the source event)
+                              \/ Cause(B0, t.out[q].o) = Cause(B0, items[q].o))
                   THEN {} ELSE {"root-demux-output"})
 
 (* error router (top level only): dead letters are the errors entering it, in
